@@ -240,6 +240,31 @@ func ruleCbrtExactness(w *World, r *RuleResult) {
 			}
 		}
 	}
+	// … also when the copy is made by a helper that is handed the local and the operand
+	for _, c := range callsIn(f) {
+		call, ok := c.(*ssa.Call)
+		h := callee(c)
+		if !ok || h == nil || !w.inPkg(h) || h.Object() == nil || h.Object().Exported() || xi < 0 {
+			continue
+		}
+		for _, cn := range []string{"(*Decimal).Set", "(*Decimal).Abs"} {
+			for _, hc := range w.callsTo(h, cn) {
+				di2, si2 := -1, -1
+				for i, q := range h.Params {
+					if hc.Common().Args[0] == ssa.Value(q) {
+						di2 = i
+					}
+					if hc.Common().Args[1] == ssa.Value(q) {
+						si2 = i
+					}
+				}
+				a := call.Common().Args
+				if di2 >= 0 && si2 >= 0 && di2 < len(a) && si2 < len(a) && a[si2] == ssa.Value(f.Params[xi]) {
+					copies[basePtr(a[di2])] = true
+				}
+			}
+		}
+	}
 	// cube comparisons: a Cmp of an operand copy with t·t·t, in Cbrt itself or in a helper that is handed
 	// the candidate t, the operand copy and the ErrDecimal that multiplies
 	type cubeCmp struct {
@@ -319,6 +344,12 @@ func ruleCbrtExactness(w *World, r *RuleResult) {
 				}
 				cmps = append(cmps, cubeCmp{call, basePtr(a[ti]), fromBase(f, a[ei])})
 			}
+		}
+	}
+	// or through an exact integer power comparison cmp(t, 3, operand copy)
+	for _, pc := range w.exactPowerCmps(f, 3) {
+		if copies[pc.x] {
+			cmps = append(cmps, cubeCmp{pc.call, pc.t, true})
 		}
 	}
 	key := "(*Context).Cbrt | exactness re-check"
@@ -736,4 +767,103 @@ func (w *World) precisionZeroGuard(f *ssa.Function, b *ssa.BasicBlock) bool {
 		}
 	}
 	return false
+}
+
+// exactPowerHelper: h(t *Decimal, n int, x *Decimal) int compares t**n with x on the integer coefficients:
+// its only callees are BigInt methods and the power-of-ten table, one (*BigInt).Mul has t's coefficient as an
+// operand inside a loop bounded by n, and every return delivers the result of a (*BigInt).Cmp. Returns the
+// parameter indices of t, n and x.
+func (w *World) exactPowerHelper(h *ssa.Function) (int, int, int, bool) {
+	if h == nil || !w.inPkg(h) || len(h.Blocks) == 0 || h.Signature.Recv() != nil {
+		return 0, 0, 0, false
+	}
+	var dec []int
+	ni := -1
+	for i, p := range h.Params {
+		switch {
+		case isDecimalPtr(p.Type()):
+			dec = append(dec, i)
+		case p.Type().String() == "int":
+			ni = i
+		}
+	}
+	if len(dec) != 2 || ni < 0 || h.Signature.Results().Len() != 1 || h.Signature.Results().At(0).Type().String() != "int" {
+		return 0, 0, 0, false
+	}
+	for _, c := range callsIn(h) {
+		n := w.calleeName(c)
+		if !(strings.HasPrefix(n, "(*BigInt).") || n == "tableExp10") {
+			return 0, 0, 0, false // a Context/ErrDecimal/Decimal call could round
+		}
+	}
+	// which Decimal parameter is the one multiplied by itself
+	ti := -1
+	for _, m := range w.callsTo(h, "(*BigInt).Mul") {
+		a := m.Common().Args
+		for _, d := range dec {
+			for _, op := range a[1:] {
+				if fa, ok := op.(*ssa.FieldAddr); ok && fa.X == ssa.Value(h.Params[d]) && w.exprOf(h, op).Name == "Coeff" {
+					// inside a loop whose condition mentions n
+					inLoop := false
+					for _, b := range h.Blocks {
+						if iff, isIf := b.Instrs[len(b.Instrs)-1].(*ssa.If); isIf && (b == m.Block() || reaches(m.Block(), b)) && reaches(b, m.Block()) {
+							w.exprOf(h, iff.Cond).walk(func(e *Expr) bool {
+								if e.V == ssa.Value(h.Params[ni]) {
+									inLoop = true
+								}
+								return true
+							})
+						}
+					}
+					if inLoop {
+						ti = d
+					}
+				}
+			}
+		}
+	}
+	if ti < 0 {
+		return 0, 0, 0, false
+	}
+	for _, b := range h.Blocks {
+		rt, ok := b.Instrs[len(b.Instrs)-1].(*ssa.Return)
+		if !ok {
+			continue
+		}
+		c, isC := rt.Results[0].(*ssa.Call)
+		if !isC || w.calleeName(c) != "(*BigInt).Cmp" {
+			return 0, 0, 0, false
+		}
+	}
+	xi := dec[0]
+	if xi == ti {
+		xi = dec[1]
+	}
+	return ti, ni, xi, true
+}
+
+type powerCmp struct {
+	call *ssa.Call
+	t, x ssa.Value // bases of the candidate and of the value compared with
+}
+
+// exactPowerCmps: the calls in f of an exact power comparison helper with the constant exponent n.
+func (w *World) exactPowerCmps(f *ssa.Function, n int64) []powerCmp {
+	var out []powerCmp
+	for _, c := range callsIn(f) {
+		call, ok := c.(*ssa.Call)
+		if !ok {
+			continue
+		}
+		ti, ni, xi, ok := w.exactPowerHelper(callee(call))
+		if !ok {
+			continue
+		}
+		a := call.Common().Args
+		if k, isK := a[ni].(*ssa.Const); !isK || ci(k) != n {
+			continue
+		}
+		out = append(out, powerCmp{call, basePtr(a[ti]), basePtr(a[xi])})
+	}
+	return out
 }
